@@ -5,7 +5,7 @@ offending connection is dropped, nothing malformed or oversize is delivered, the
 working (later items on other and on fresh connections are delivered).  Replayed with RECVMAXSZ = 4 size units and 0
 (unlimited), clamps 1 and none, under ASan/UBSan; a wedged library is a watchdog timeout.  This check keeps the divergences
 in connection state (closed / open) and crashes, hangs and leaks."""
-from checks.wirelib import run_wire
+from checks.wirelib import run_wire, run_udp
 
 
 def concerns(sig, text):
@@ -17,3 +17,6 @@ def concerns(sig, text):
 def run(v, tier, rng):
     run_wire(v, tier, concerns, [("Framing_sim.cfg", "pull", 4, [(1, 1), (1, 0), (1000, 3)], 300),
                                  ("Framing0_sim.cfg", "pull", 0, [(1, 1), (1, 0)], 200)])
+    n = run_udp(v, tier, lambda sig, text: True)
+    v.cov["distinct_nontrivial"] += n
+    v.cov["rule"] += "; plus behaviours of Udp.tla (connection requests good / refresh 0 / wrong protocol, data within and above the limit and lying about its length, wrong version, short, unknown opcode, disconnect, from 3 peers) x scales 1, 1000"
